@@ -257,6 +257,9 @@ def run(check, an: Analysis):
                            'iteration ends only through the StreamClosed handler',
                            path=rules.path_lines(path))
     check.instance('I', 'yields', n_yield > 0, where_fn(aiter.fn), 'iteration yields items')
+    # the kernel rules every suspending operation rests on (shared; see _scope)
+    from . import _scope as _kernel
+    _kernel.check_kernel_core(check, an)
     check.stats.update(an.stats())
 
 
